@@ -31,6 +31,7 @@ type World struct {
 	specErrs []string
 	scratchD *Decls
 	typeInvs map[string]*Clause
+	globalInvs map[string]*Clause
 }
 
 func shortName(s string) string {
@@ -264,7 +265,7 @@ func (w *World) sortOf(t types.Type, d *Decls) string {
 func (w *World) declRV(d *Decls) {
 	// reflect.Value: valid flag, wrapped dynamic value, and whether the Value's static
 	// kind is Interface (an element of []any obtained by Index is an Interface-kinded Value).
-	d.add("sort:RV", "(declare-datatypes ((RV 0)) (((mk_rv (rv_valid Bool) (rv_val Val)))))")
+	d.add("sort:RV", "(declare-datatypes ((RV 0)) (((mk_rv (rv_valid Bool) (rv_val Val) (rv_iface Bool)))))\n(define-fun rvkind ((v RV)) Int (ite (not (rv_valid v)) 0 (ite (rv_iface v) 20 (kindof (typeof (rv_val v))))))\n(declare-fun tconvertible (Int Int) Bool)")
 }
 
 func structKey(t types.Type) string {
@@ -352,7 +353,7 @@ func (w *World) declBox(t types.Type, id int, d *Decls) {
 	case k == 1:
 		fmt.Fprintf(&b, "\n(assert (forall ((x Bool)) (! (= (pl_bool (box$%d x)) x) :pattern ((box$%d x)))))", id, id)
 	case k == 24:
-		fmt.Fprintf(&b, "\n(assert (forall ((x Str)) (! (= (pl_str (box$%d x)) x) :pattern ((box$%d x)))))", id, id)
+		fmt.Fprintf(&b, "\n(assert (forall ((x Str)) (! (and (= (pl_str (box$%d x)) x) (= (pl_len (box$%d x)) (str_len x))) :pattern ((box$%d x)))))", id, id, id)
 	case k == 13 || k == 14:
 		fmt.Fprintf(&b, "\n(assert (forall ((x Flt)) (! (= (pl_flt (box$%d x)) x) :pattern ((box$%d x)))))", id, id)
 	case k == 23:
